@@ -142,6 +142,155 @@ func (g *richGen) decl() string {
 	return fmt.Sprintf("%s: %s: %s | %s", g.top(), g.lab(), g.intAtom(), g.intAtom())
 }
 
+// multiMarkBlock: a disjunction carrying TWO OR MORE default marks (it has no usable default on
+// its own) - in a definition, a plain field or a pattern constraint - and data equal to one of
+// the marked values, to an unmarked value, or absent.  The fields live under their own top-level
+// names (w, ws, #M), so no other default meets them (F11's class stays excluded).
+func (g *richGen) multiMarkBlock() []string {
+	type fld struct {
+		name  string
+		marks []string
+		other string // an admitted, unmarked value
+		typ   string
+	}
+	pool := []fld{
+		{"mode", []string{`"a"`, `"b"`}, `"c"`, "string"},
+		{"n", []string{"1", "2"}, "7", "int"},
+		{"lvl", []string{"1", "2", "3"}, "9", "int"},
+		{"tag", []string{`"x"`, `"y"`}, `"z"`, "string"},
+	}
+	common.Shuffle(g.r, pool)
+	fields := pool[:1+g.r.Intn(2)]
+	disj := func(f fld) string {
+		var parts []string
+		for _, m := range f.marks {
+			parts = append(parts, "*"+m)
+		}
+		switch g.r.Intn(3) {
+		case 0:
+			parts = append(parts, f.typ)
+		case 1:
+			parts = append(parts, f.other, f.typ)
+		}
+		if g.r.Chance(1, 4) {
+			common.Shuffle(g.r, parts)
+		}
+		return strings.Join(parts, " | ")
+	}
+	var schema []string
+	for _, f := range fields {
+		schema = append(schema, f.name+": "+disj(f))
+	}
+	if g.r.Chance(1, 3) {
+		schema = append(schema, "replicas: *1 | int")
+	}
+	body := "{" + strings.Join(schema, ", ") + "}"
+	data := func() string {
+		var ds []string
+		for _, f := range fields {
+			switch g.r.Intn(6) {
+			case 0:
+			case 1:
+				ds = append(ds, f.name+": "+f.other)
+			default:
+				ds = append(ds, f.name+": "+common.Pick(g.r, f.marks))
+			}
+		}
+		if strings.Contains(body, "replicas") && g.r.Bool() {
+			ds = append(ds, "replicas: 1")
+		}
+		return strings.Join(ds, ", ")
+	}
+	var out []string
+	switch g.r.Intn(4) {
+	case 0: // definition
+		out = append(out, "#M: "+body, "w: #M")
+		out = append(out, "w: {"+data()+"}")
+	case 1: // definition and & in one declaration
+		out = append(out, "#M: "+body, "w: #M & {"+data()+"}")
+	case 2: // plain field
+		out = append(out, "w: "+body)
+		for _, d := range strings.Split(data(), ", ") {
+			if d != "" {
+				out = append(out, "w: "+d)
+			}
+		}
+	default: // pattern constraint
+		out = append(out, "ws: [string]: "+body, "ws: foo: {"+data()+"}")
+		if g.r.Bool() {
+			out = append(out, "ws: bar: {"+data()+"}")
+		}
+	}
+	if g.r.Chance(1, 4) { // the data once more
+		out = append(out, out[len(out)-1])
+	}
+	return out
+}
+
+// nestedRefBlock: a reference from a nested struct (1-3 levels deeper) to a field of an enclosing
+// struct literal, whose value is split over two declarations (the one the reference binds to is the
+// less specific one), with and without an outer field of the same name that the reference would
+// rebind to if its target were removed.
+func (g *richGen) nestedRefBlock() []string {
+	tgt := common.Pick(g.r, []string{"port", "host"})
+	weak, strong, outer := "int", "8080", "80"
+	if tgt == "host" {
+		weak, strong, outer = "string", `"h1"`, `"h0"`
+	}
+	weak = common.Pick(g.r, []string{weak, weak, "_", strong})
+	if tgt == "port" && g.r.Chance(1, 4) {
+		weak = ">0"
+	}
+	top := common.Pick(g.r, []string{"svc", "svc", "app"})
+	chain := []string{"probe", "http", "target"}[3-(1+g.r.Intn(3)):] // 1..3 labels, the last one holds the reference
+	ref := tgt
+	switch g.r.Intn(6) {
+	case 0:
+		ref = tgt + " & " + map[string]string{"port": "int", "host": "string"}[tgt]
+	case 1:
+		if tgt == "port" {
+			ref = tgt + " + 1"
+		}
+	}
+	inner := chain[len(chain)-1] + ": " + ref
+	if g.r.Chance(1, 6) && tgt == "port" {
+		inner = "if " + tgt + " > 0 {\n\t\tok: true\n\t}"
+	}
+	for i := len(chain) - 2; i >= 0; i-- {
+		if g.r.Bool() || strings.HasPrefix(inner, "if ") {
+			inner = chain[i] + ": {" + inner + "}"
+		} else {
+			inner = chain[i] + ": " + inner
+		}
+	}
+	if len(chain) == 1 {
+		// one level deeper than the target at least
+		inner = "sub: {" + inner + "}"
+	}
+	parts := []string{tgt + ": " + weak, inner}
+	if g.r.Chance(1, 3) {
+		parts = append(parts, "name: \"s\"")
+	}
+	common.Shuffle(g.r, parts)
+	var out []string
+	out = append(out, top+": {\n\t"+strings.Join(parts, "\n\t")+"\n}")
+	switch g.r.Intn(4) {
+	case 0:
+		out = append(out, top+": {"+tgt+": "+strong+"}")
+	case 1:
+	default:
+		out = append(out, top+": "+tgt+": "+strong)
+	}
+	if g.r.Bool() {
+		out = append(out, tgt+": "+outer)
+	}
+	if g.r.Chance(1, 4) {
+		out = append(out, top+": "+tgt+": "+weak)
+	}
+	common.Shuffle(g.r, out)
+	return out
+}
+
 func (g *richGen) Package() []srcFile {
 	g.def = map[string]string{}
 	nf := 1 + g.r.Intn(2)
@@ -160,6 +309,17 @@ func (g *richGen) Package() []srcFile {
 			seen[d[:2]] = true
 		}
 		fs[g.r.Intn(nf)].Text += d + "\n"
+	}
+	put := func(d string) { fs[g.r.Intn(nf)].Text += d + "\n" }
+	if g.r.Chance(1, 3) {
+		for _, d := range g.multiMarkBlock() {
+			put(d)
+		}
+	}
+	if g.r.Chance(1, 3) {
+		for _, d := range g.nestedRefBlock() {
+			put(d)
+		}
 	}
 	all := ""
 	for _, f := range fs {
